@@ -94,6 +94,123 @@ def test_get_size(case, note):
         raise PropertyFailure("get_size:view", {})
 
 
+# ------------------------------------------------- time-series driver path
+HEAVY = ["Kretschmann", "st_Weyl_down4", "Hamiltonian", "Momentumup3",
+         "dtKtrace", "s_RicciS", "Weyl_Psi", "dtAdown3_bssnok", "theta",
+         "st_Ricci_down4", "eweyl_n_down3", "s_Ricci_down3_bssnok"]
+
+
+def driver_case():
+    S = CM.strategies()
+
+    @st.composite
+    def s(draw):
+        cfg = draw(S["config"](aggressive=True))
+        cfg["t2"] = cfg["t"] + draw(st.sampled_from([0.125, -0.25, 0.5]))
+        return dict(cfg=cfg,
+                    heavy=draw(st.lists(st.sampled_from(HEAVY), min_size=1,
+                                        max_size=4, unique=True)),
+                    after=draw(st.lists(st.sampled_from(
+                        ["gammadet", "Ktrace", "betamag", "A2", "gdet"]),
+                        min_size=1, max_size=3, unique=True)),
+                    nsteps=draw(st.integers(1, 2)))
+    return s()
+
+
+def test_driver(case, note):
+    """over_time freezes the per-step inputs (and custom variables): while
+    custom functions and built-in variables are computed under aggressive
+    cache settings, every input stays cached, is the caller's array, keeps
+    importance 0, and later results are those of the inputs (not of the
+    Minkowski defaults)."""
+    import contextlib
+    import io
+
+    import aurel
+    cfg = case["cfg"]
+    world = CM.World(cfg)
+    fd = world.fd()
+    steps = []
+    for i in range(case["nsteps"]):
+        w = CM.World(dict(cfg, t=cfg["t"] if i == 0 else cfg["t2"]))
+        d, _ = w.inputs(fd)
+        steps.append((w, d))
+    keys = sorted(steps[0][1])
+    table = {k: [d[k] for _, d in steps] for k in keys}
+    table["it"] = list(range(len(steps)))
+    audit_log = []
+
+    def audit(rel):
+        # over_time first validates custom functions on a dummy instance
+        # that holds no inputs: nothing to audit there
+        real = all(k in rel.data for k in keys)
+        for k in case["heavy"]:
+            rel[k]
+        bad = []
+        if not real:
+            return np.zeros(rel.data_shape)
+        for k in keys:
+            if k not in rel.data:
+                bad.append(("input-evicted", k))
+            elif not any(rel.data[k] is d[k] for _, d in steps):
+                bad.append(("input-replaced", k))
+            elif rel.var_importance.get(k, 1.0) != 0:
+                bad.append(("input-not-frozen", k))
+        if set(rel.last_accessed) - set(rel.data):
+            bad.append(("last_accessed-not-subset", ""))
+        audit_log.append(bad)
+        return np.full(rel.data_shape, float(len(bad)))
+
+    def second(rel):
+        # the first custom variable must itself have been frozen in
+        bad = []
+        if not all(k in rel.data for k in keys):
+            for k in case["heavy"][::-1]:
+                rel[k]
+            return np.zeros(rel.data_shape)
+        if "audit" not in rel.data:
+            bad.append(("custom-variable-evicted", "audit"))
+        elif rel.var_importance.get("audit", 1.0) != 0:
+            bad.append(("custom-variable-not-frozen", "audit"))
+        for k in case["heavy"][::-1]:
+            rel[k]
+        for k in keys:
+            if k not in rel.data:
+                bad.append(("input-evicted", k))
+        audit_log.append(bad)
+        return np.full(rel.data_shape, float(len(bad)))
+    kw = world.kwargs(cache=True)
+    kw.pop("verbose", None)
+    buf = io.StringIO()
+    try:
+        with contextlib.redirect_stdout(buf), contextlib.redirect_stderr(buf):
+            out = aurel.over_time(
+                dict(table), fd,
+                vars=[{"audit": audit}, {"second": second}] + case["after"],
+                estimates=[], verbose=False, **kw)
+    except Exception as e:  # noqa: BLE001
+        note.fail(f"over_time:raises:{type(e).__name__}",
+                  dict(error=str(e)[:200]))
+        return
+    note.nt(True)
+    note.cls(cfg["spec"]["family"], f"steps={len(steps)}")
+    for bad in audit_log:
+        for what, k in bad:
+            note.fail(f"driver:{what}", dict(key=k))
+    # later built-in variables are those of the inputs
+    order = list(out["it"])
+    for j, i in enumerate(order):
+        w = steps[int(i)][0]
+        for k in case["after"]:
+            b = w.fresh(dict(op="get", key=k))
+            if b[0] != "ok":
+                continue
+            d, _ = CM.discrepancy(np.asarray(out[k][j]), b[1])
+            if d > 1e-10:
+                note.fail(f"driver:fallback-or-stale:{k}",
+                          dict(discrepancy=d))
+
+
 def subchecks(tier):
     q = tier == "quick"
     dh = []
@@ -114,4 +231,7 @@ def subchecks(tier):
             shards=8 if q else 16, max_rounds=3, shrink_quick=False),
         Sub("get_size", nested, test_get_size, 400 if q else 10000,
             shards=2),
+        Sub("over_time_driver", driver_case(), test_driver,
+            40 if q else 1500, shards=8 if q else 16, max_rounds=3,
+            shrink_quick=False),
     ]
